@@ -486,6 +486,11 @@ namespace BitSerializer::Convert::Detail
 
 		// Based on Howard Hinnant's algorithm
 		static_assert(sizeof(int) >= 4, "This algorithm has not been ported to a 16 bit integers");
+		// Years beyond this limit cannot be counted in days with 64-bit integer (and would overflow the calculations below)
+		constexpr int64_t maxYear = std::numeric_limits<int64_t>::max() / 365;
+		if (utc.Year > maxYear || utc.Year < -maxYear) {
+			throw std::out_of_range("Target duration is not enough");
+		}
 		auto const y = utc.Year - (utc.Month <= 2);
 		auto const m = static_cast<unsigned>(utc.Month);
 		auto const d = static_cast<unsigned>(utc.Day);
@@ -494,12 +499,26 @@ namespace BitSerializer::Convert::Detail
 		auto const doy = (153 * (m > 2 ? m - 3 : m + 9) + 2) / 5 + d - 1;	// [0, 365]
 		auto const doe = yoe * 365 + yoe / 4 - yoe / 100 + doy;				// [0, 146096]
 
-		if (static_cast<int64_t>(era) > std::numeric_limits<int64_t>::max() / 146097ll ||
-			static_cast<int64_t>(era) < std::numeric_limits<int64_t>::min() / 146097ll)
+		// Calculate the number of days since 1970-01-01 with an exact check of the 64-bit range
+		constexpr int64_t daysInEra = 146097ll;
+		const int64_t doeFromEpoch = static_cast<int64_t>(doe) - 719468;				// [-719468, -573372]
+		int64_t days;
+		if (era >= 5)
 		{
-			throw std::out_of_range("Target duration is not enough");
+			// Count from an era shifted by 5 (5 * 146097 > 719468) to make the remainder non-negative
+			const int64_t restDays = doeFromEpoch + 5 * daysInEra;
+			if (era - 5 > (std::numeric_limits<int64_t>::max() - restDays) / daysInEra) {
+				throw std::out_of_range("Target duration is not enough");
+			}
+			days = (era - 5) * daysInEra + restDays;
 		}
-		const int64_t days = era * 146097ll + (static_cast<int>(doe) - 719468);
+		else
+		{
+			if (era < (std::numeric_limits<int64_t>::min() - doeFromEpoch) / daysInEra) {
+				throw std::out_of_range("Target duration is not enough");
+			}
+			days = era * daysInEra + doeFromEpoch;
+		}
 		const auto time = static_cast<long long>(utc.Hour) * 3600 + static_cast<long long>(utc.Min) * 60 + utc.Sec;
 
 		std::chrono::time_point<TClock, TDuration> tp;
